@@ -156,8 +156,9 @@ func (c rendererContext) RenderFile(filename string, b map[string]any) (string, 
 		return "", c.Errorf("template files are nested more than %d deep (a template that includes itself?): %s", maxFileDepth, filename)
 	}
 	source, err := os.ReadFile(filename)
-	// a path through a regular file (ENOTDIR) or one that is too long for the file system names no file either
-	if err != nil && (os.IsNotExist(err) || errors.Is(err, syscall.ENOTDIR) || errors.Is(err, syscall.ENAMETOOLONG)) {
+	// a path through a regular file (ENOTDIR), the name of a directory (EISDIR) or one that is too long for the
+	// file system names no file either
+	if err != nil && (os.IsNotExist(err) || errors.Is(err, syscall.ENOTDIR) || errors.Is(err, syscall.EISDIR) || errors.Is(err, syscall.ENAMETOOLONG)) {
 		// Is it cached?
 		if cval, ok := c.ctx.config.cachedSource(filename); ok {
 			source = cval
